@@ -71,7 +71,20 @@ def candidates(irm, entry, whiches):
     return found
 
 
+RULE = ('one obligation = one multi-threaded program; every thread is executed symbolically into events, and for every combination of thread paths z3 decides over all schedules '
+        '(integer event clocks: program order, lock exclusion, start/join, reads-from) whether an assertion can fail and whether two conflicting accesses are unordered by happens-before')
+
+
 def main(prop, tier):
+    try:
+        return main_(prop, tier)
+    except irsym.EngineError as e:
+        # e.g. an unmodelled external function met in the sequential pre-run: no verdict, never a crash of the check
+        rep = Report(prop, tier); rep.inconc(prop + '/sequential pre-run', 'engine: %s' % e)
+        return rep.finish(RULE)
+
+
+def main_(prop, tier):
     rep = Report(prop, tier)
     irm, d, srcs = build(prop)
     replay_dir = os.path.join(os.environ.get('VERIF_REPLAY_DIR') or os.path.join(VERIF, 'replay'), prop)
@@ -84,9 +97,11 @@ def main(prop, tier):
         rep.extra['static_state_written_by_a_singleton_access'] = demangle(sshared)
         runs = [('singleton/2 threads', 'hx_singleton', [2], sshared, False),
                 ('singleton/3 threads', 'hx_singleton', [3], sshared, False),
-                ('managed_thread/worker+observer', 'hx_managed', [0], [], False)]
+                ('managed_thread/worker+observer', 'hx_managed', [0], [], False),
+                ('singleton/reset by another thread', 'hx_singleton_reset', [0], sshared, False),
+                ('managed_thread/destroyed at once', 'hx_managed_destroy', [0], [], False)]
         if tier == 'quick':
-            runs = [runs[0], runs[2]]
+            runs = [runs[0]] + runs[2:]
     else:
         cand = candidates(irm, 'hx_use_handler', [0, 1])
         cand = {k: v for k, v in cand.items() if 'GLOBAL__N_1' not in k}       # the harness' own result slots
